@@ -405,4 +405,520 @@ theorem toChunksGo_spec (h : ListLike o V abs) (isCounter : Bool) :
 
 end windows
 
+/-! ### seriesToChunkEncoder's cut -/
+
+theorem cutWindows_flatten {split : Nat} (hsp : 0 < split) : ∀ (n : Nat) (l : List Sample),
+    l.length ≤ n → (cutWindows split n l).flatten = l := by
+  intro n
+  induction n with
+  | zero =>
+    intro l hl
+    have : l = [] := List.length_eq_zero_iff.mp (Nat.le_zero.mp hl)
+    subst this; rfl
+  | succ n ih =>
+    intro l hl
+    unfold cutWindows
+    cases l with
+    | nil => simp
+    | cons a l =>
+      have hs0 : split ≠ 0 := by omega
+      simp only [List.isEmpty_cons, hs0, decide_false, Bool.or_self, Bool.false_eq_true, if_false,
+        List.flatten_cons]
+      rw [ih _ (by
+        simp only [List.length_drop, List.length_cons] at hl ⊢
+        omega)]
+      exact List.take_append_drop _ _
+
+theorem cutWindows_ne {split : Nat} : ∀ (n : Nat) (l : List Sample),
+    ∀ w ∈ cutWindows split n l, w ≠ [] := by
+  intro n
+  induction n with
+  | zero => intro l w hw; simp [cutWindows] at hw
+  | succ n ih =>
+    intro l w hw
+    unfold cutWindows at hw
+    by_cases hc : (l.isEmpty || decide (split = 0)) = true
+    · simp [hc] at hw
+    · simp only [hc, Bool.false_eq_true, if_false, List.mem_cons] at hw
+      simp only [Bool.or_eq_true, List.isEmpty_iff, decide_eq_true_eq, not_or] at hc
+      rcases hw with rfl | hw
+      · intro h
+        rcases List.take_eq_nil_iff.mp h with h | h
+        · exact hc.2 h
+        · exact hc.1 h
+      · exact ih _ w hw
+
+/-- the cut only looks at positions: lists with the same timestamps are cut alike -/
+theorem cutWindows_ts {split : Nat} : ∀ (n : Nat) (l l' : List Sample), tsOf l = tsOf l' →
+    (cutWindows split n l).map tsOf = (cutWindows split n l').map tsOf := by
+  intro n
+  induction n with
+  | zero => intro l l' _; rfl
+  | succ n ih =>
+    intro l l' h
+    have hlen : l.length = l'.length := by
+      have := congrArg List.length h
+      simpa [tsOf] using this
+    unfold cutWindows
+    have he : l.isEmpty = l'.isEmpty := by
+      cases l <;> cases l' <;> simp_all
+    rw [he]
+    by_cases hc : (l'.isEmpty || decide (split = 0)) = true
+    · simp [hc]
+    · simp only [hc, Bool.false_eq_true, if_false, List.map_cons]
+      congr 1
+      · simp only [tsOf]
+        have := congrArg (List.take split) h
+        simpa [tsOf] using this
+      · apply ih
+        simp only [tsOf]
+        have := congrArg (List.drop split) h
+        simpa [tsOf] using this
+
+theorem windowBounds_ts {w w' : List Sample} (h : tsOf w = tsOf w') : windowBounds w = windowBounds w' := by
+  have h1 : w.head?.map (·.t) = w'.head?.map (·.t) := by
+    have := congrArg List.head? h
+    simpa [tsOf, List.head?_map] using this
+  have h2 : w.getLast?.map (·.t) = w'.getLast?.map (·.t) := by
+    have := congrArg List.getLast? h
+    simpa [tsOf, List.getLast?_map] using this
+  unfold windowBounds
+  cases hw : w.head? <;> cases hw' : w'.head? <;> cases hl : w.getLast? <;> cases hl' : w'.getLast? <;>
+    simp_all
+
+/-! ### `samplesMergeFunc` folded over the XOR iterators of one aggregate -/
+
+theorem xorPkg_good (l : List Sample) (h : ∀ x ∈ l, minT < x.t) : GoodL (xorIt l) l :=
+  ⟨xorV, xorAbs, xor_listLike, xor_initLike l h⟩
+
+theorem mergeStep_good (acc : AnyIt) (L b : List Sample) (hacc : GoodL acc L) (h : ∀ x ∈ b, minT < x.t) :
+    GoodL (mergeStep true acc b) (pm2 minT L b) := by
+  obtain ⟨V, abs, hl, hi⟩ := hacc
+  exact ⟨nodeV V xorV abs xorAbs, nodeAbs abs xorAbs, node_listLike hl xor_listLike true,
+    node_initLike hl xor_listLike hi (xor_initLike b h)⟩
+
+theorem mergeFold_good (l : List Sample) (ls : List (List Sample))
+    (h : ∀ q ∈ l :: ls, ∀ x ∈ q, minT < x.t) :
+    ∃ it, mergeFold true (l :: ls) = some it ∧ GoodL it (ls.foldl (pm2 minT) l) := by
+  refine ⟨_, rfl, ?_⟩
+  have key : ∀ (ls : List (List Sample)) (acc : AnyIt) (L : List Sample), GoodL acc L →
+      (∀ q ∈ ls, ∀ x ∈ q, minT < x.t) →
+      GoodL (ls.foldl (mergeStep true) acc) (ls.foldl (pm2 minT) L) := by
+    intro ls
+    induction ls with
+    | nil => intro acc L h _; exact h
+    | cons b ls ih =>
+      intro acc L hacc hq
+      exact ih _ _ (mergeStep_good acc L b hacc (hq b (by simp))) (fun q hq' => hq q (by simp [hq']))
+  exact key ls _ l (xorPkg_good l (h l (by simp))) (fun q hq => h q (by simp [hq]))
+
+/-- folds of `pm2` over pointwise observationally equal inputs are observationally equal -/
+theorem foldl_pm2_obsEq {γ : Type} (f g : γ → List Sample) : ∀ (cs : List γ) (L L' : List Sample),
+    ObsEq L L' → (∀ c ∈ cs, ObsEq (f c) (g c)) →
+    ObsEq ((cs.map f).foldl (pm2 minT) L) ((cs.map g).foldl (pm2 minT) L') := by
+  intro cs
+  induction cs with
+  | nil => intro L L' h _; exact h
+  | cons c cs ih =>
+    intro L L' hL hfg
+    simp only [List.map_cons, List.foldl_cons]
+    exact ih _ _ (obsEq_of_tsOf (pm2_obsEq hL (hfg c (by simp)))) (fun c' hc' => hfg c' (by simp [hc']))
+
+/-- … and, as soon as there is one merge, have the same timestamps -/
+theorem foldl_pm2_ts {γ : Type} (f g : γ → List Sample) (c : γ) (cs : List γ) (L L' : List Sample)
+    (hL : ObsEq L L') (hfg : ∀ c' ∈ c :: cs, ObsEq (f c') (g c')) :
+    tsOf (((c :: cs).map f).foldl (pm2 minT) L) = tsOf (((c :: cs).map g).foldl (pm2 minT) L') := by
+  induction cs generalizing c L L' with
+  | nil =>
+    simp only [List.map_cons, List.map_nil, List.foldl_cons, List.foldl_nil]
+    exact pm2_obsEq hL (hfg c (by simp))
+  | cons c2 cs ih =>
+    simp only [List.map_cons, List.foldl_cons]
+    have := ih c2 (pm2 minT L (f c)) (pm2 minT L' (g c))
+      (obsEq_of_tsOf (pm2_obsEq hL (hfg c (by simp)))) (fun c' hc' => hfg c' (by simp [hc']))
+    simpa using this
+
+/-! ### well-formed downsampled chunks (the input domain of C40) and the property -/
+
+/-- strictly increasing -/
+def incr : List Int → Bool
+  | a :: b :: rest => decide (a < b) && incr (b :: rest)
+  | _ => true
+
+/-- a well-formed downsampled chunk: all five aggregates, `sum/min/max` on the count's
+    timestamps, the counter on the count's timestamps plus its last one repeated; count
+    timestamps strictly increasing from `mint ≥ 1` to `maxt` -/
+def chunkWF (c : AggrChk) : Bool :=
+  match c.aggr with
+  | [some cnt, some s, some mn, some mx, some ctr] =>
+    incr (tsOf cnt) && (tsOf cnt).head? == some c.mint && (tsOf cnt).getLast? == some c.maxt &&
+    decide (0 < c.mint) &&
+    tsOf s == tsOf cnt && tsOf mn == tsOf cnt && tsOf mx == tsOf cnt && tsOf ctr == tsOf cnt ++ [c.maxt]
+  | _ => false
+
+/-- chunks of one series are ordered and disjoint -/
+def chunksOrdered : List AggrChk → Bool
+  | a :: b :: rest => decide (a.maxt < b.mint) && chunksOrdered (b :: rest)
+  | _ => true
+
+def seriesWF (s : List AggrChk) : Bool := !s.isEmpty && s.all chunkWF && chunksOrdered s
+
+/-- the property on one output chunk: every aggregate has a sample at each timestamp at which
+    the count aggregate has one -/
+def chunkComplete (c : AggrChk) : Bool :=
+  match c.aggr with
+  | [some cnt, a1, a2, a3, a4] =>
+    [a1, a2, a3, a4].all fun a =>
+      match a with
+      | some l => (tsOf cnt).all fun t => (tsOf l).contains t
+      | none => false
+  | _ => false
+
+/-! ### the chunks `aggrChunkIterator` assembles are well formed -/
+
+theorem incr_of_ssorted : ∀ {l : List Sample}, SSorted l → incr (tsOf l) = true
+  | [], _ => rfl
+  | [_], _ => rfl
+  | a :: b :: l, h => by
+    have hp := List.pairwise_cons.mp h
+    have hab := hp.1 b (by simp)
+    simp only [tsOf, List.map_cons, incr, hab, decide_true, Bool.true_and]
+    exact incr_of_ssorted (l := b :: l) hp.2
+
+theorem ssorted_of_incr : ∀ {l : List Sample}, incr (tsOf l) = true → SSorted l
+  | [], _ => List.Pairwise.nil
+  | [a], _ => by simp [SSorted]
+  | a :: b :: l, h => by
+    simp only [tsOf, List.map_cons, incr, Bool.and_eq_true, decide_eq_true_eq] at h
+    have ih := ssorted_of_incr (l := b :: l) h.2
+    refine List.pairwise_cons.mpr ⟨?_, ih⟩
+    intro y hy
+    rcases List.mem_cons.mp hy with rfl | hy
+    · exact h.1
+    · have := (List.pairwise_cons.mp ih).1 y hy; omega
+
+theorem ssorted_of_ts {l l' : List Sample} (h : tsOf l = tsOf l') (hs : SSorted l) : SSorted l' :=
+  ssorted_of_incr (by rw [← h]; exact incr_of_ssorted hs)
+
+theorem tsOf_head? (l : List Sample) : (tsOf l).head? = l.head?.map (·.t) := by
+  simp [tsOf, List.head?_map]
+
+theorem tsOf_getLast? (l : List Sample) : (tsOf l).getLast? = l.getLast?.map (·.t) := by
+  simp [tsOf, List.getLast?_map]
+
+/-- one assembled chunk: the count window `w` and, for the other aggregates, windows with the
+    same timestamps -/
+theorem assembled_wf {w l1 l2 l3 l4 : List Sample} (hne : w ≠ []) (hs : SSorted w)
+    (hpos : ∀ x ∈ w, 1 ≤ x.t) (h1 : tsOf l1 = tsOf w) (h2 : tsOf l2 = tsOf w) (h3 : tsOf l3 = tsOf w)
+    (h4 : tsOf l4 = tsOf w) :
+    chunkWF { mint := (windowBounds w).1, maxt := (windowBounds w).2,
+              aggr := [some w, finishOf false l1, finishOf false l2, finishOf false l3, finishOf true l4] }
+      = true := by
+  obtain ⟨a, ha⟩ : ∃ a, w.head? = some a := by
+    cases w with
+    | nil => exact absurd rfl hne
+    | cons a _ => exact ⟨a, rfl⟩
+  obtain ⟨b, hb⟩ : ∃ b, w.getLast? = some b := by
+    cases hgl : w.getLast? with
+    | none => exact absurd (List.getLast?_eq_none_iff.mp hgl) hne
+    | some b => exact ⟨b, rfl⟩
+  have hwb : windowBounds w = (a.t, b.t) := by simp [windowBounds, ha, hb]
+  have hlast : ∀ {l : List Sample}, tsOf l = tsOf w → ∃ x, l.getLast? = some x ∧ x.t = b.t := by
+    intro l hl
+    have := tsOf_getLast? l
+    rw [hl, tsOf_getLast?, hb] at this
+    cases hgl : l.getLast? with
+    | none => rw [hgl] at this; simp at this
+    | some x => rw [hgl] at this; simp at this; exact ⟨x, rfl, this.symm⟩
+  obtain ⟨x1, hx1, _⟩ := hlast h1
+  obtain ⟨x2, hx2, _⟩ := hlast h2
+  obtain ⟨x3, hx3, _⟩ := hlast h3
+  obtain ⟨x4, hx4, hx4t⟩ := hlast h4
+  have hapos := hpos a (List.mem_of_mem_head? ha)
+  simp only [finishOf, hx1, hx2, hx3, hx4, hwb, chunkWF, Bool.false_eq_true, if_false, if_true]
+  simp only [Bool.and_eq_true, beq_iff_eq, decide_eq_true_eq]
+  refine ⟨⟨⟨⟨⟨⟨⟨incr_of_ssorted hs, ?_⟩, ?_⟩, by omega⟩, h1⟩, h2⟩, h3⟩, ?_⟩
+  · rw [tsOf_head?, ha]; rfl
+  · rw [tsOf_getLast?, hb]; rfl
+  · simp [tsOf, List.map_append, hx4t] at h4 ⊢
+    exact h4
+
+/-- all chunks `zip5` assembles from windows with pairwise equal timestamps are well formed -/
+theorem zip5_wf : ∀ (ws w1 w2 w3 w4 : List (List Sample)),
+    w1.map tsOf = ws.map tsOf → w2.map tsOf = ws.map tsOf → w3.map tsOf = ws.map tsOf →
+    w4.map tsOf = ws.map tsOf → (∀ w ∈ ws, w ≠ [] ∧ SSorted w ∧ ∀ x ∈ w, 1 ≤ x.t) →
+    ∀ c ∈ zip5 ws (w1.map (finishOf false)) (w2.map (finishOf false)) (w3.map (finishOf false))
+      (w4.map (finishOf true)), chunkWF c = true := by
+  intro ws
+  induction ws with
+  | nil => intro w1 w2 w3 w4 _ _ _ _ _ c hc; simp [zip5] at hc
+  | cons w ws ih =>
+    intro w1 w2 w3 w4 h1 h2 h3 h4 hw c hc
+    cases w1 with
+    | nil => simp at h1
+    | cons l1 w1 =>
+    cases w2 with
+    | nil => simp at h2
+    | cons l2 w2 =>
+    cases w3 with
+    | nil => simp at h3
+    | cons l3 w3 =>
+    cases w4 with
+    | nil => simp at h4
+    | cons l4 w4 =>
+      simp only [List.map_cons, List.cons.injEq] at h1 h2 h3 h4
+      simp only [List.map_cons, zip5, List.mem_cons] at hc
+      obtain ⟨hwne, hws, hwpos⟩ := hw w (by simp)
+      rcases hc with rfl | hc
+      · exact assembled_wf hwne hws hwpos h1.1 h2.1 h3.1 h4.1
+      · exact ih w1 w2 w3 w4 h1.2 h2.2 h3.2 h4.2 (fun w' hw' => hw w' (by simp [hw'])) c hc
+
+/-! ### `om.iterator(base)` on well-formed chunks -/
+
+/-- the sample list of aggregate `i` of a chunk (empty if absent) -/
+def agg (i : Nat) (c : AggrChk) : List Sample := (c.get i).getD []
+
+theorem chunkWF_shape {c : AggrChk} (h : chunkWF c = true) :
+    ∃ cnt s mn mx ctr, c.aggr = [some cnt, some s, some mn, some mx, some ctr] ∧
+      SSorted cnt ∧ (tsOf cnt).head? = some c.mint ∧ (tsOf cnt).getLast? = some c.maxt ∧ 0 < c.mint ∧
+      tsOf s = tsOf cnt ∧ tsOf mn = tsOf cnt ∧ tsOf mx = tsOf cnt ∧ tsOf ctr = tsOf cnt ++ [c.maxt] := by
+  unfold chunkWF at h
+  split at h
+  · rename_i cnt s mn mx ctr heq
+    simp only [Bool.and_eq_true, beq_iff_eq, decide_eq_true_eq] at h
+    obtain ⟨⟨⟨⟨⟨⟨⟨h1, h2⟩, h3⟩, h4⟩, h5⟩, h6⟩, h7⟩, h8⟩ := h
+    exact ⟨cnt, s, mn, mx, ctr, heq, ssorted_of_incr h1, h2, h3, h4, h5, h6, h7, h8⟩
+  · simp at h
+
+/-- what the well-formedness of a chunk says about its five sample lists -/
+theorem chunkWF_agg {c : AggrChk} (h : chunkWF c = true) :
+    (∀ i, i < 5 → c.get i = some (agg i c)) ∧ SSorted (agg 0 c) ∧ agg 0 c ≠ [] ∧
+    (∀ i, i < 5 → ∀ x ∈ agg i c, 1 ≤ x.t) ∧
+    (∀ i, i < 5 → ObsEq (agg 0 c) (agg i c)) := by
+  obtain ⟨cnt, s, mn, mx, ctr, heq, hs, hhd, hlast, hpos, e1, e2, e3, e4⟩ := chunkWF_shape h
+  have hget : ∀ i, i < 5 → c.get i = some (agg i c) := by
+    intro i hi
+    unfold agg AggrChk.get
+    rw [heq]
+    match i, hi with
+    | 0, _ => rfl
+    | 1, _ => rfl
+    | 2, _ => rfl
+    | 3, _ => rfl
+    | 4, _ => rfl
+  have ha : ∀ i l, ([some cnt, some s, some mn, some mx, some ctr][i]?).join = some l → agg i c = l := by
+    intro i l hl
+    unfold agg AggrChk.get
+    rw [heq, hl]; rfl
+  have a0 : agg 0 c = cnt := ha 0 cnt rfl
+  have a1 : agg 1 c = s := ha 1 s rfl
+  have a2 : agg 2 c = mn := ha 2 mn rfl
+  have a3 : agg 3 c = mx := ha 3 mx rfl
+  have a4 : agg 4 c = ctr := ha 4 ctr rfl
+  have hcne : cnt ≠ [] := by
+    intro he; rw [he] at hhd; simp [tsOf] at hhd
+  -- every count timestamp is ≥ mint ≥ 1
+  have hcpos : ∀ x ∈ cnt, 1 ≤ x.t := by
+    intro x hx
+    obtain ⟨a, hA⟩ : ∃ a, cnt.head? = some a := by
+      cases cnt with
+      | nil => exact absurd rfl hcne
+      | cons a _ => exact ⟨a, rfl⟩
+    obtain ⟨b, hB⟩ : ∃ b, cnt.getLast? = some b := by
+      cases hgl : cnt.getLast? with
+      | none => exact absurd (List.getLast?_eq_none_iff.mp hgl) hcne
+      | some b => exact ⟨b, rfl⟩
+    have := (ssorted_bounds hs hA hB x hx).1
+    rw [tsOf_head?, hA] at hhd
+    simp at hhd
+    omega
+  have hmem_ts : ∀ {l : List Sample}, (∀ t ∈ tsOf l, 1 ≤ t) → ∀ x ∈ l, 1 ≤ x.t := by
+    intro l hl x hx
+    exact hl x.t (by simp only [tsOf, List.mem_map]; exact ⟨x, hx, rfl⟩)
+  have hts_cnt : ∀ t ∈ tsOf cnt, 1 ≤ t := by
+    intro t ht
+    simp only [tsOf, List.mem_map] at ht
+    obtain ⟨x, hx, rfl⟩ := ht
+    exact hcpos x hx
+  have hmaxt : 1 ≤ c.maxt := by
+    have : c.maxt ∈ tsOf cnt := List.mem_of_getLast? hlast
+    exact hts_cnt _ this
+  refine ⟨hget, by rw [a0]; exact hs, by rw [a0]; exact hcne, ?_, ?_⟩
+  · intro i hi x hx
+    match i, hi with
+    | 0, _ => rw [a0] at hx; exact hcpos x hx
+    | 1, _ => rw [a1] at hx; exact hmem_ts (by rw [e1]; exact hts_cnt) x hx
+    | 2, _ => rw [a2] at hx; exact hmem_ts (by rw [e2]; exact hts_cnt) x hx
+    | 3, _ => rw [a3] at hx; exact hmem_ts (by rw [e3]; exact hts_cnt) x hx
+    | 4, _ =>
+      rw [a4] at hx
+      refine hmem_ts ?_ x hx
+      rw [e4]
+      intro t ht
+      rcases List.mem_append.mp ht with ht | ht
+      · exact hts_cnt t ht
+      · simp at ht; omega
+  · intro i hi
+    match i, hi with
+    | 0, _ => exact ObsEq.refl _
+    | 1, _ => rw [a0, a1]; exact obsEq_of_tsOf e1.symm
+    | 2, _ => rw [a0, a2]; exact obsEq_of_tsOf e2.symm
+    | 3, _ => rw [a0, a3]; exact obsEq_of_tsOf e3.symm
+    | 4, _ =>
+      rw [a0, a4]
+      -- ctr = c' ++ [d] with tsOf c' = tsOf cnt and d.t = maxt = the last count timestamp
+      have hcn : ctr ≠ [] := by intro he; rw [he] at e4; simp [tsOf] at e4
+      have hsplit : ctr = ctr.dropLast ++ [ctr.getLast hcn] := (List.dropLast_concat_getLast hcn).symm
+      have e4' : tsOf ctr.dropLast ++ [(ctr.getLast hcn).t] = tsOf cnt ++ [c.maxt] := by
+        have := e4
+        rw [hsplit] at this
+        simpa [tsOf] using this
+      have hd := List.append_inj' e4' rfl
+      have h1 : ObsEq cnt ctr.dropLast := obsEq_of_tsOf hd.1.symm
+      have h2 : ObsEq ctr.dropLast (ctr.dropLast ++ [ctr.getLast hcn]) := by
+        apply obsEq_append_dup
+        -- the last element of ctr.dropLast has timestamp maxt
+        have hl : (tsOf ctr.dropLast).getLast? = some c.maxt := by rw [hd.1]; exact hlast
+        rw [tsOf_getLast?] at hl
+        cases hgl : ctr.dropLast.getLast? with
+        | none => rw [hgl] at hl; simp at hl
+        | some y =>
+          rw [hgl] at hl
+          simp at hl
+          refine ⟨y, List.mem_of_getLast? hgl, ?_⟩
+          have := hd.2
+          simp at this
+          omega
+      rw [hsplit]
+      exact h1.trans h2
+
+/-- `windowBounds` as a function of the timestamps -/
+def wbTs (ts : List Int) : Int × Int :=
+  match ts.head?, ts.getLast? with
+  | some a, some b => (a, b)
+  | _, _ => (0, 0)
+
+theorem windowBounds_eq_wbTs (w : List Sample) : windowBounds w = wbTs (tsOf w) := by
+  unfold windowBounds wbTs
+  rw [tsOf_head?, tsOf_getLast?]
+  cases w.head? <;> cases w.getLast? <;> rfl
+
+theorem map_windowBounds_of_ts {ws ws' : List (List Sample)} (h : ws.map tsOf = ws'.map tsOf) :
+    ws.map windowBounds = ws'.map windowBounds := by
+  have : ∀ (l : List (List Sample)), l.map windowBounds = (l.map tsOf).map wbTs := by
+    intro l; simp [List.map_map, Function.comp_def, windowBounds_eq_wbTs]
+  rw [this ws, this ws', h]
+
+theorem aggrLists_eq (ovl : List AggrChk) (base : AggrChk)
+    (h : ∀ c ∈ ovl ++ [base], chunkWF c = true) (i : Nat) (hi : i < 5) :
+    aggrLists ovl base i = (ovl ++ [base]).map (agg i) := by
+  unfold aggrLists
+  have hb := (chunkWF_agg (h base (by simp))).1 i hi
+  rw [hb, List.map_append]
+  congr 1
+  have : ∀ (l : List AggrChk), (∀ c ∈ l, chunkWF c = true) → l.filterMap (·.get i) = l.map (agg i) := by
+    intro l
+    induction l with
+    | nil => intro _; rfl
+    | cons c l ih =>
+      intro hl
+      rw [List.filterMap_cons, (chunkWF_agg (hl c (by simp))).1 i hi]
+      simp only [List.map_cons]
+      rw [ih (fun c' hc' => hl c' (by simp [hc']))]
+  exact this ovl (fun c hc => h c (by simp [hc]))
+
+/-- one aggregate's column: the windows of its own merged list, which has the count's timestamps -/
+theorem column_spec {split : Nat} (hsp : 0 < split) (isCounter : Bool) {it : AnyIt} {L L0 : List Sample}
+    (hg : GoodL it L) (hts : tsOf L = tsOf L0) (hs : SSorted L) (hpos : ∀ x ∈ L, 1 ≤ x.t) :
+    toChunksCol true isCounter ((cutWindows split L0.length L0).map windowBounds) (some it) =
+      some ((cutWindows split L0.length L).map (finishOf isCounter)) := by
+  obtain ⟨V, abs, hl, hi⟩ := hg
+  have hlen : L.length = L0.length := by
+    have := congrArg List.length hts
+    simpa [tsOf] using this
+  have hb : (cutWindows split L0.length L0).map windowBounds =
+      (cutWindows split L0.length L).map windowBounds :=
+    map_windowBounds_of_ts (cutWindows_ts _ _ _ hts.symm)
+  have hflat := cutWindows_flatten hsp L0.length L (by omega)
+  unfold toChunksCol
+  rw [hb]
+  apply toChunksGo_spec hl isCounter
+  · rw [hflat]; exact ready_of_init hi
+  · rw [hflat]; exact hs
+  · exact cutWindows_ne _ _
+  · rw [hflat]; exact hpos
+
+/-- **The merge of one group of overlapping well-formed chunks** (`om.iterator(base)` drained,
+    with the repaired `toChunk`) consists of well-formed chunks: in every output chunk sum, min
+    and max have exactly the count's timestamps and the counter has them plus its last one. -/
+theorem aggrOut_wf {split : Nat} (hsp : 0 < split) (ovl : List AggrChk) (base : AggrChk)
+    (hne : ovl ≠ []) (hwf : ∀ c ∈ ovl ++ [base], chunkWF c = true) :
+    ∃ out, aggrOut true true split ovl base = some out ∧ ∀ c ∈ out, chunkWF c = true := by
+  -- the chunk list has at least two elements
+  obtain ⟨c0, ovl', rfl⟩ : ∃ c0 ovl', ovl = c0 :: ovl' := by
+    cases ovl with
+    | nil => exact absurd rfl hne
+    | cons c0 ovl' => exact ⟨c0, ovl', rfl⟩
+  obtain ⟨c1, T', hT⟩ : ∃ c1 T', ovl' ++ [base] = c1 :: T' := by
+    cases ovl' with
+    | nil => exact ⟨base, [], rfl⟩
+    | cons c1 o => exact ⟨c1, o ++ [base], rfl⟩
+  have hcs : (c0 :: ovl') ++ [base] = c0 :: c1 :: T' := by rw [List.cons_append, hT]
+  have hwf' : ∀ c ∈ c0 :: c1 :: T', chunkWF c = true := by rw [← hcs]; exact hwf
+  -- the merged list of aggregate i
+  let L : Nat → List Sample := fun i => ((c1 :: T').map (agg i)).foldl (pm2 minT) (agg i c0)
+  have hlow : ∀ i, i < 5 → ∀ q ∈ agg i c0 :: (c1 :: T').map (agg i), ∀ x ∈ q, minT < x.t := by
+    intro i hi q hq x hx
+    have hq' : ∃ c ∈ c0 :: c1 :: T', q = agg i c := by
+      rcases List.mem_cons.mp hq with rfl | hq
+      · exact ⟨c0, by simp, rfl⟩
+      · obtain ⟨c, hc, rfl⟩ := List.mem_map.mp hq
+        exact ⟨c, by simp only [List.mem_cons] at hc ⊢; exact Or.inr hc, rfl⟩
+    obtain ⟨c, hc, rfl⟩ := hq'
+    have := (chunkWF_agg (hwf' c hc)).2.2.2.1 i hi x hx
+    simp only [minT]; omega
+  have hF1 : ∀ i, i < 5 → ∃ it, mergeFold true (aggrLists (c0 :: ovl') base i) = some it ∧ GoodL it (L i) := by
+    intro i hi
+    rw [aggrLists_eq _ _ hwf i hi, hcs, List.map_cons]
+    exact mergeFold_good _ _ (hlow i hi)
+  have hF2 : ∀ i, i < 5 → tsOf (L i) = tsOf (L 0) := by
+    intro i hi
+    exact (foldl_pm2_ts (agg 0) (agg i) c1 T' _ _ ((chunkWF_agg (hwf' c0 (by simp))).2.2.2.2 i hi)
+      (fun c hc => (chunkWF_agg (hwf' c (by simp only [List.mem_cons] at hc ⊢; exact Or.inr hc))).2.2.2.2 i hi)).symm
+  have hS0 : SSorted (L 0) := by
+    apply pmFold_sorted
+    · exact (chunkWF_agg (hwf' c0 (by simp))).2.1
+    · exact fun x hx => hlow 0 (by omega) _ (by simp) x hx
+    · exact fun q hq x hx => hlow 0 (by omega) q (List.mem_cons_of_mem _ hq) x hx
+  have hS : ∀ i, i < 5 → SSorted (L i) := fun i hi => ssorted_of_ts (hF2 i hi).symm hS0
+  have hP : ∀ i, i < 5 → ∀ x ∈ L i, 1 ≤ x.t := by
+    intro i hi x hx
+    rcases pmFold_mem _ _ x hx with h | ⟨q, hq, hxq⟩
+    · exact (chunkWF_agg (hwf' c0 (by simp))).2.2.2.1 i hi x h
+    · obtain ⟨c, hc, rfl⟩ := List.mem_map.mp hq
+      exact (chunkWF_agg (hwf' c (by simp only [List.mem_cons] at hc ⊢; exact Or.inr hc))).2.2.2.1 i hi x hxq
+  obtain ⟨it0, hm0, hg0⟩ := hF1 0 (by omega)
+  obtain ⟨it1, hm1, hg1⟩ := hF1 1 (by omega)
+  obtain ⟨it2, hm2, hg2⟩ := hF1 2 (by omega)
+  obtain ⟨it3, hm3, hg3⟩ := hF1 3 (by omega)
+  obtain ⟨it4, hm4, hg4⟩ := hF1 4 (by omega)
+  have hdrain : drain it0 = L 0 := drain_good hg0
+  unfold aggrOut
+  simp only [hm0, hm1, hm2, hm3, hm4, hdrain]
+  rw [column_spec hsp false hg1 (hF2 1 (by omega)) (hS 1 (by omega)) (hP 1 (by omega)),
+    column_spec hsp false hg2 (hF2 2 (by omega)) (hS 2 (by omega)) (hP 2 (by omega)),
+    column_spec hsp false hg3 (hF2 3 (by omega)) (hS 3 (by omega)) (hP 3 (by omega)),
+    column_spec hsp true hg4 (hF2 4 (by omega)) (hS 4 (by omega)) (hP 4 (by omega))]
+  refine ⟨_, rfl, ?_⟩
+  apply zip5_wf
+  · exact cutWindows_ts _ _ _ (hF2 1 (by omega))
+  · exact cutWindows_ts _ _ _ (hF2 2 (by omega))
+  · exact cutWindows_ts _ _ _ (hF2 3 (by omega))
+  · exact cutWindows_ts _ _ _ (hF2 4 (by omega))
+  · intro w hw
+    have hflat := cutWindows_flatten hsp (L 0).length (L 0) (Nat.le_refl _)
+    have hsub : w.Sublist (L 0) := by rw [← hflat]; exact List.sublist_flatten_of_mem hw
+    exact ⟨cutWindows_ne _ _ w hw, List.Pairwise.sublist hsub hS0,
+      fun x hx => hP 0 (by omega) x (hsub.subset hx)⟩
+
 end Thanos.Dedup
